@@ -64,11 +64,17 @@ T_KResult == /\ Ev.ev = "KResult" /\ Full /\ UNCHANGED <<scn, kq, remaining>> /\
                      /\ FALSE
 (* Yen's algorithm under a limit against the same query without it: the limited run ends 'terminated' or returns
    exactly the unlimited result (never a truncated or different one) *)
+(* contiguity alone (whether a Yen route repeats an edge, and its states, belong to the open finding F-C13-e) *)
+Contiguous(r) == /\ r # <<>> /\ Near(r[1]) = scn.src /\ Far(r[Len(r)]) = scn.dst
+                 /\ \A i \in 1..(Len(r) - 1) : Far(r[i]) = Near(r[i + 1])
 T_KLimit == /\ Ev.ev = "KLimit" /\ UNCHANGED <<scn, kq, remaining, accepted, kdone>> /\ Frozen
             /\ Chk("C10 a limited k-shortest-paths query is terminated or returns the unlimited result",
                    IF Ev.unl_outcome = "ok" THEN Ev.lim_outcome = "terminated" \/ (Ev.lim_outcome = "ok" /\ Ev.lim_routes = Ev.unl_routes)
                    ELSE IF Ev.unl_outcome = "nopath" THEN Ev.lim_outcome \in {"terminated", "nopath"}
                    ELSE TRUE)
+            /\ (Enforce("C01") /\ Ev.unl_outcome = "ok") =>
+                  Chk("C01 every route Yen's algorithm returns is a contiguous origin-destination walk",
+                      \A i \in DOMAIN Ev.unl_routes : Contiguous(EdgesOf(RouteOfEv(Ev.unl_routes[i]))))
 TInit == /\ l = 1 /\ scn = Idle /\ queue = <<>> /\ g = <<>> /\ tree = <<>> /\ cur = 0 /\ lastE = 0 /\ todo = {} /\ iters = 0
          /\ outcome = "run" /\ pc = "idle" /\ reop = FALSE /\ exh = -1
          /\ kq = [k |-> 1, sim |-> [type |-> "accept_all", p |-> 0], alg |-> "svp", term |-> [type |-> "exact", n |-> 0]] /\ accepted = <<>> /\ remaining = {} /\ kdone = FALSE
